@@ -21,7 +21,8 @@ EXPLANATION = (
     'a recording fake. For every explored path one z3 query decides "path condition and not C17" where the oracle '
     '(Kahn order, least fixed point of the skip rule, written independently) is a formula over the still-symbolic '
     'booleans; one more query per shard proves that the explored path conditions cover the whole bounded input '
-    'space. Bounded: quick N=3 jobs (all 3^6 x 2^3 dependency shapes, every mention flavour per consumer); thorough '
+    'space. Bounded: quick N=3 jobs (all 3^6 x 2^3 dependency shapes, every mention flavour per consumer) and N=4 '
+    'over all acyclic relations with explicit dependencies; thorough '
     'additionally N=4 over all CYCLIC relations with at most 4 edges + self-dependencies (explicit or resource edges, '
     'file mentions), N=4 over ALL acyclic dependency relations on 4 jobs, once with explicit and once with '
     'resource-induced edges (acyclicity stated to the solver through existential order variables), N=3 acyclic with '
@@ -52,12 +53,13 @@ def _configs(tier):
     """Budgets: the pool gets a global deadline (quick 170 s, thorough 1300 s); shards that do not finish are not
     discharged."""
     n3 = dict(tag='N3', N=3, kinds=[0, 1, 2], aro=[0], nfix=3)
+    n4e = dict(tag='N4dagE', N=4, kinds=[0, 1], aro=[0], acyclic_only=True, nfix=3)
     if tier == 'quick':
-        return [n3], 170
+        return [n3, n4e], 170
     return [
         n3,
         dict(tag='N4cyc', N=4, kinds=[0, 1, 2], aro=[0], max_total=4, cyclic_only=True, fixed_flavour=0, nfix=2),
-        dict(tag='N4dagE', N=4, kinds=[0, 1], aro=[0], acyclic_only=True, nfix=2),
+        n4e,
         dict(tag='N4dagR', N=4, kinds=[0, 2], aro=[0], acyclic_only=True, fixed_flavour=0, nfix=2),
         dict(tag='N3aro', N=3, kinds=[0, 1, 2], aro=[1], acyclic_only=True, nfix=2),
         dict(tag='N3both', N=3, kinds=[0, 1, 2, 3], aro=[0], global_flavour=True, max_self=0, nfix=2),
@@ -132,13 +134,14 @@ def run(R):
         complete = all(r['complete'] for r in rs)
         unknown = sum(r['unknown'] for r in rs)
         twins = sum(r['twins_sat'] for r in rs)
+        checked = sum(r['paths'] - r.get('covered_elsewhere', 0) for r in rs)
         secs = sum(r['secs'] for r in rs)
         part_counts = {}
         for r in rs:
             for k, v in r['part_counts'].items():
                 part_counts[k] = part_counts.get(k, 0) + v
         totals[tag] = dict(shards=len(rs), paths=paths, cyclic_paths=sum(r['cyclic_paths'] for r in rs),
-                           dag_paths=sum(r['dag_paths'] for r in rs), solver_calls=sum(r['solver_calls'] for r in rs),
+                           dag_paths=sum(r['dag_paths'] for r in rs), acyclic_shapes_left_to_other_configurations=sum(r.get('covered_elsewhere', 0) for r in rs), solver_calls=sum(r['solver_calls'] for r in rs),
                            forks=sum(r['forks'] for r in rs), rejected_while_building=sum(r['rejected_at_build'] for r in rs),
                            rejection_example=next((r['rejection_example'] for r in rs if r['rejection_example']), None), paths_with_symbolic_oracle=sum(r['symbolic_parts'] for r in rs),
                            cpu_seconds=round(secs, 1))
@@ -170,7 +173,7 @@ def run(R):
                 detail['counterexamples'] = len(by_part[part])
                 R.ob(name, st, secs / max(len(PARTS), 1), detail, nontrivial=True)
             elif complete and unknown == 0 and n > 0:
-                R.ob(name, 'discharged', secs / max(len(PARTS), 1), detail, nontrivial=(twins == paths and paths > 0))
+                R.ob(name, 'discharged', secs / max(len(PARTS), 1), detail, nontrivial=(twins == checked and checked > 0))
             else:
                 detail['complete'] = complete
                 detail['solver_unknown'] = unknown
